@@ -66,6 +66,7 @@ structure Win (inp : List UInt8) (G : Prop) (r : Reader) : Prop where
   len_cur : r.br.buf.length ≤ r.br.src.cursor
   full : inp.drop (r.br.src.cursor - r.br.buf.length) = r.br.buf ++ inp.drop r.br.src.cursor
   byte_pos : r.byte + r.br.buf.length = r.br.src.cursor + r.bp.pos0
+  nosf : r.br.src.seekFails = []
 
 /-- … and the current group starts inside the buffer (or at its end) -/
 structure Base (inp : List UInt8) (G : Prop) (r : Reader) : Prop where
@@ -144,8 +145,8 @@ def Found (inp : List UInt8) (G : Prop) (st : State) (its : List FqItem)
 theorem Win.set_bp {inp G r} (h : Win inp G r) (bp' : BufPos)
     (ip' : Option RecordPos) (hp : bp'.pos0 = r.bp.pos0) :
     Win inp G { r with bp := bp', incompletePos := ip' } := by
-  obtain ⟨a, b, c, d, e, f, g, i, w, k⟩ := h
-  exact ⟨a, b, c, d, e, f, g, i, w, by simpa [hp] using k⟩
+  obtain ⟨a, b, c, d, e, f, g, i, w, k, z⟩ := h
+  exact ⟨a, b, c, d, e, f, g, i, w, by simpa [hp] using k, z⟩
 
 theorem Base.set_bp {inp G r} (h : Base inp G r) (bp' : BufPos)
     (ip' : Option RecordPos) (hp : bp'.pos0 = r.bp.pos0) :
@@ -154,8 +155,8 @@ theorem Base.set_bp {inp G r} (h : Base inp G r) (bp' : BufPos)
 
 theorem Win.set_state {inp G r} (h : Win inp G r) (st : State) :
     Win inp G { r with state := st } := by
-  obtain ⟨a, b, c, d, e, f, g, i, w, k⟩ := h
-  exact ⟨a, b, c, d, e, f, g, i, w, k⟩
+  obtain ⟨a, b, c, d, e, f, g, i, w, k, z⟩ := h
+  exact ⟨a, b, c, d, e, f, g, i, w, k, z⟩
 
 theorem Base.set_state {inp G r} (h : Base inp G r) (st : State) :
     Base inp G { r with state := st } := ⟨h.toWin.set_state st, h.pos0_le⟩
